@@ -894,29 +894,58 @@ def compare_run(world, runner):
 
 
 def concurrent_flush(world):
-    """F18 (property C04): some thread calls socket.send while ANOTHER thread
-    holds outbuf_lock -- the unlocked `_flush_some` of handle_write running
-    against a locked flush (worker-side send_continue, write_soon)."""
+    """F18 (property C04): the UNLOCKED `_flush_some` of handle_write (the I/O
+    thread, `requests == []`) runs while another thread is inside a locked flush
+    (worker-side send_continue, write_soon): both fetch the same chunk and both
+    send it.  Decided on the trace: an I/O-thread socket.send made without
+    holding outbuf_lock whose handle_write (from the poll turn's `selected` event
+    to the send) overlaps a critical section of outbuf_lock of another thread
+    that contains a socket.send."""
     ch = world.channel
     cond = object.__getattribute__(ch, "outbuf_lock")
     OL, CV = cond.lock.name, cond.name
     owner = None
-    for t, kind, d in world.sched.events:
+    start = None
+    sections = []            # (start, end, has_send) of other threads' critical sections
+    cur = None
+    io_sends = []            # (window start, index) of unlocked I/O-thread sends
+    last_selected = 0
+    for k, (t, kind, d) in enumerate(world.sched.events):
+        took = released = False
         if kind == "acquire" and d == OL:
-            owner = t
-        elif kind == "try_acquire" and d == OL:
-            if owner is None:
-                owner = t
-        elif kind == "release" and d == OL:
-            owner = None
-        elif kind == "wait" and d == CV:
-            owner = None
+            took = True
+        elif kind == "try_acquire" and d == OL and owner is None:
+            took = True
         elif kind == "wake" and isinstance(d, list) and d and d[0] == CV:
-            owner = t
+            took = True
         elif kind == "reacquire" and d == OL:
+            took = True
+        elif (kind == "release" and d == OL) or (kind == "wait" and d == CV):
+            released = True
+        if took:
             owner = t
-        elif kind == "sock_send" and owner is not None and owner != t:
-            return True
+            cur = [k, None, False, t]
+        if released and cur is not None:
+            cur[1] = k
+            if cur[3] != "io":
+                sections.append(tuple(cur))
+            cur = None
+            owner = None
+        if t == "io" and kind == "selected":
+            last_selected = k
+        if kind == "sock_send":
+            if cur is not None and cur[3] == t:
+                cur[2] = True
+            elif t == "io" and owner != "io":
+                io_sends.append((last_selected, k))
+    if cur is not None and cur[3] != "io":
+        sections.append((cur[0], len(world.sched.events), cur[2], cur[3]))
+    for (ws, we, has_send, _) in sections:
+        if not has_send:
+            continue
+        for (a0, b0) in io_sends:
+            if ws <= b0 and we >= a0:
+                return True
     return False
 
 
